@@ -82,7 +82,7 @@ def graph():
 RPCS2 = [('Fleet', 'StartX'), ('Fleet', 'Plain'), ('XOps', 'Get'), ('XOps', 'Other')]
 
 
-def graph2():
+def graph2(ops_first=False):
     """Extended operations: StartX names XOps as its operation service; XOps.Get is the polling method."""
     msgs = [
         message('Operation', [field('name', 1, 'string', operation_field=1), field('http_error_status_code', 2, 'int32', operation_field=3),
@@ -105,7 +105,7 @@ def graph2():
     fleet = service('Fleet', [
         method('StartX', Q('StartXRequest'), Q('Operation'), http=('post', '/v1/projects/{project}:startx', '*'), operation_service='XOps'),
         method('Plain', Q('PlainRequest'), Q('PlainResponse'), http=('get', '/v1/{name=plains/*}'))])
-    f = file('acme/sel/v1/fleet.proto', P, messages=msgs, services=[fleet, xops])
+    f = file('acme/sel/v1/fleet.proto', P, messages=msgs, services=[xops, fleet] if ops_first else [fleet, xops])
     f.dependency.extend(desc.std_dep_names())
     return [f]
 
@@ -210,7 +210,7 @@ def closure(files, kept):
 
 
 def make_job(subset, internal, transport='grpc+rest', g=1):
-    files = graph() if g == 1 else graph2()
+    files = graph() if g == 1 else graph2(ops_first=(g == 3))
     rpcs = RPCS if g == 1 else RPCS2
     param = f'transport={transport},autogen-snippets=false'
     of = None
@@ -220,10 +220,10 @@ def make_job(subset, internal, transport='grpc+rest', g=1):
     req = request(files, param)
     desc.gate(req)
     needed = set(subset) if subset is not None else set(rpcs)
-    if g == 2 and ('Fleet', 'StartX') in needed:
+    if g in (2, 3) and ('Fleet', 'StartX') in needed:
         needed.add(('XOps', 'Get'))          # the polling method of the operation service it names
     keep, amb, all_types = closure(files, needed)
-    sid = ('' if g == 1 else 'g2:') + ('full' if subset is None else '+'.join(r for _, r in subset))
+    sid = ('' if g == 1 else f'g{g}:') + ('full' if subset is None else '+'.join(r for _, r in subset))
     return dict(id=f'{sid}|internal={internal}', req=req.SerializeToString(), opt_files=of, probe='mc.probes.selective',
                 probe_args=dict(package=names.import_package(P), proto_package=P, rpcs=[list(x) for x in rpcs],
                                 all_types=sorted(all_types)),
@@ -252,18 +252,20 @@ def run(ctx, only=None):
         if only and (only.get('g', 1) != 1 or sorted(map(list, s)) != sorted(only['subset']) or internal != only['internal']):
             continue
         jobs.append(make_job(s, internal))
-    full2_at = len(jobs)
-    jobs.append(make_job(None, False, g=2))
+    full_at = {1: 0}
     subsets2 = [tuple(c) for n in range(1, len(RPCS2) + 1) for c in itertools.combinations(RPCS2, n)]
-    for s2, internal in itertools.product(subsets2, (False, True)):
-        if only and (only.get('g') != 2 or sorted(map(list, s2)) != sorted(only['subset']) or internal != only['internal']):
-            continue
-        jobs.append(make_job(s2, internal, g=2))
+    for g_ in (2, 3):
+        full_at[g_] = len(jobs)
+        jobs.append(make_job(None, False, g=g_))
+        for s2, internal in itertools.product(subsets2, (False, True)):
+            if only and (only.get('g') != g_ or sorted(map(list, s2)) != sorted(only['subset']) or internal != only['internal']):
+                continue
+            jobs.append(make_job(s2, internal, g=g_))
     rej = rejection_jobs() if not only else []
-    ctx.log(f'{len(jobs) - 2} selective states (two graphs) + {len(rej)} rejection cells')
+    ctx.log(f'{len(jobs) - 3} selective states (three graphs) + {len(rej)} rejection cells')
     results = engine.run_jobs(jobs + rej)
     fulls = {}
-    for g_, at in ((1, 0), (2, full2_at)):
+    for g_, at in sorted(full_at.items()):
         full = results[at]
         if not full['gen']['ok'] or full.get('obs', {}).get('import_error') or 'probe_error' in full:
             raise HarnessError(f'C16: the full library (graph {g_}) itself failed: {full.get("gen")} {full.get("obs", {}).get("import_error")} {full.get("probe_error", "")[-800:]}')
